@@ -36,6 +36,7 @@ class Obj:
     types: Optional[frozenset[str]]
     own: str
     nullable: bool = False
+    src: str = ''              # 'param': handed in by the caller of the analysed entry point
 
 
 @dataclasses.dataclass(frozen=True)
@@ -132,7 +133,8 @@ def join_values(vals: list) -> object:
                 types = None
             else:
                 types = types | v.types
-        return Obj(types, join_own(*[v.own for v in rest]), nullable)
+        srcs = {v.src for v in rest}
+        return Obj(types, join_own(*[v.own for v in rest]), nullable, srcs.pop() if len(srcs) == 1 else '')
     if all(isinstance(v, StoreV) for v in rest) and rest:
         return StoreV(join_own(*[v.own for v in rest]), nullable)
     if all(isinstance(v, ListV) for v in rest) and rest:
